@@ -1243,6 +1243,12 @@ func (loader *Loader) resolvePathItemRef(doc *T, pathItem *PathItem, documentPat
 			if documentPath, err = loader.loadSingleElementFromURI(ref, documentPath, &p); err != nil {
 				return
 			}
+			if p.Ref != "" {
+				// the file holds a reference itself: resolve it before it is copied
+				if err = loader.resolvePathItemRef(doc, &p, documentPath); err != nil {
+					return
+				}
+			}
 			*pathItem = p
 		} else {
 			var resolved PathItem
